@@ -87,26 +87,19 @@ func verifyTx(f *fixture, tx *pb.Transaction) (ok bool, errS string, panicked bo
 	return good, "", false
 }
 
-// submitTx is the sequence of Chain.SubmitTx (kernel/engines/xuperos/chain.go):
-// parameter check, "inputs must not be empty unless the chain is fee-less",
-// VerifyTx looking at the error only, DoTx.
+// submitTx runs the real Chain.SubmitTx (kernel/engines/xuperos/chain.go) of the
+// fixture node, without its recently-posted-txid guard (world.Submit).
 func submitTx(f *fixture, tx *pb.Transaction) (admitted bool, why string) {
 	defer func() {
 		if r := recover(); r != nil {
 			admitted, why = false, fmt.Sprintf("panic: %v", r)
 		}
 	}()
-	if tx == nil || len(tx.GetTxid()) == 0 {
+	if tx == nil {
 		return false, "parameter"
 	}
-	if len(tx.TxInputs) == 0 && !f.w.Ledger.GetNoFee() {
-		return false, "no inputs"
-	}
-	if _, err := f.w.State.VerifyTx(tx); err != nil {
-		return false, "verify: " + err.Error()
-	}
-	if err := f.w.State.DoTx(tx); err != nil {
-		return false, "dotx: " + err.Error()
+	if err := f.w.Submit(tx); err != nil {
+		return false, "submit: " + err.Error()
 	}
 	return true, ""
 }
